@@ -1190,7 +1190,7 @@ Section Refine.
     exists stolen lft' c',
       grow_child (Node (I1 ++ sep :: I2) (C1 ++ lft :: c :: C2) (idx_of (map fsize (C1 ++ lft :: c :: C2)))) (S (length I1)) lo
         = Some (Node (I1 ++ stolen :: I2) (C1 ++ lft' :: c' :: C2) (idx_of (map fsize (C1 ++ lft' :: c' :: C2)))) /\
-      flatten lft ++ sep :: flatten c = flatten lft' ++ stolen :: flatten c' /\
+      (exists M, flatten lft = flatten lft' ++ stolen :: M /\ flatten c' = M ++ sep :: flatten c) /\
       binv h lft' /\ binv h c' /\ (lo <= length (n_its lft') <= hi)%nat /\ length (n_its c') = S lo.
   Proof.
     intros L1 L2 F1 F2 Big Small.
@@ -1220,7 +1220,7 @@ Section Refine.
       + f_equal. f_equal. rewrite !map_app. cbn [map]. rewrite <- L1, <- (map_length fsize C1).
         rewrite (idx_shift (map fsize C1) _ _ (map fsize C2) 1). f_equal. f_equal.
         unfold fsize. cbn. rewrite app_length. cbn. f_equal; [lia|f_equal; lia].
-      + cbn. rewrite <- app_assoc. reflexivity.
+      + exists []. cbn. split; reflexivity.
       + apply binv_leaf.
       + apply binv_leaf.
       + cbn. lia.
@@ -1255,7 +1255,7 @@ Section Refine.
           rewrite (idx_shift (map fsize C1) _ _ (map fsize C2) (1 + fsize moved)). f_equal. f_equal.
           rewrite (fsize_app_eq _ _ FLl), (fsize_app_eq _ _ FLc). unfold fsize. rewrite !app_length. cbn [length].
           f_equal; [lia|f_equal; lia].
-      + rewrite FLl, FLc. rewrite <- !app_assoc. reflexivity.
+      + exists (flatten moved). split; [exact FLl|exact FLc].
       + unfold lft'. apply binv_node; [lia|exact LF1a|exact LF2a].
       + unfold c'. apply binv_node; [cbn; lia|constructor; assumption|constructor; assumption].
       + unfold lft'. cbn. lia.
@@ -1274,7 +1274,7 @@ Section Refine.
     exists stolen c' rgt',
       grow_child (Node (I1 ++ sep :: I2) (C1 ++ c :: rgt :: C2) (idx_of (map fsize (C1 ++ c :: rgt :: C2)))) (length I1) lo
         = Some (Node (I1 ++ stolen :: I2) (C1 ++ c' :: rgt' :: C2) (idx_of (map fsize (C1 ++ c' :: rgt' :: C2)))) /\
-      flatten c ++ sep :: flatten rgt = flatten c' ++ stolen :: flatten rgt' /\
+      (exists M, flatten rgt = M ++ stolen :: flatten rgt' /\ flatten c' = flatten c ++ sep :: M) /\
       binv h c' /\ binv h rgt' /\ length (n_its c') = S lo /\ (lo <= length (n_its rgt') <= hi)%nat.
   Proof.
     intros L1 L2 F1 F2 LB Big Small.
@@ -1304,7 +1304,7 @@ Section Refine.
         rewrite (upd_nth_ext _ _ (fun v => v - (-1))%Z) by (intros v; lia).
         rewrite (idx_shift (map fsize C1) _ _ (map fsize C2) (-1)). f_equal. f_equal.
         unfold fsize. rewrite !flatten_leaf, app_length. cbn [length]. f_equal; [lia|f_equal; lia].
-      + cbn. rewrite <- app_assoc. reflexivity.
+      + exists []. cbn. split; reflexivity.
       + apply binv_leaf.
       + apply binv_leaf.
       + cbn. rewrite app_length. cbn. lia.
@@ -1335,7 +1335,7 @@ Section Refine.
           rewrite (idx_shift (map fsize C1) _ _ (map fsize C2) (- (1 + fsize moved))). f_equal. f_equal.
           rewrite (fsize_app_eq _ _ FLr), (fsize_app_eq _ _ FLc). unfold fsize. rewrite !app_length. cbn [length].
           f_equal; [lia|f_equal; lia].
-      + rewrite FLr, FLc. rewrite <- !app_assoc. reflexivity.
+      + exists (flatten moved). split; [exact FLr|exact FLc].
       + unfold c'. apply binv_node; [rewrite !app_length; cbn; lia|apply Forall_app; split; [exact CF1|constructor; [assumption|constructor]]|
                                     apply Forall_app; split; [exact CF2|constructor; [assumption|constructor]]].
       + unfold rgt'. apply binv_node; [lia|assumption|assumption].
@@ -1491,8 +1491,8 @@ Section Refine.
   Proof.
     destruct typ as [x| |]; cbn [pos_ok rem_spec].
     - intros [HP HQ] E. apply (l0_delete_comp ltb lt_irrefl lt_trans); assumption.
-    - intros -> E. destruct out as [e|]; [|contradiction]. subst C. repeat rewrite app_nil_r. repeat rewrite <- app_assoc. reflexivity.
     - intros -> E. destruct out as [e|]; [|contradiction]. subst C. reflexivity.
+    - intros -> E. destruct out as [e|]; [|contradiction]. subst C. rewrite (app_nil_r (C' ++ [e])), (app_nil_r C'), <- app_assoc. reflexivity.
   Qed.
 
   Lemma rem_length typ L L' out : rem_spec typ L L' out ->
@@ -1504,8 +1504,8 @@ Section Refine.
       + destruct (ltb a x).
         * destruct (l0_delete ltb x L) as [L2 o2] eqn:E2. inversion E; subst. cbn [length]. rewrite (IH _ _ eq_refl). lia.
         * destruct (ltb x a); inversion E; subst; cbn [length]; lia.
-    - destruct out; [|contradiction]. intros ->. rewrite app_length. cbn. lia.
     - destruct out; [|contradiction]. intros ->. cbn. lia.
+    - destruct out; [|contradiction]. intros ->. rewrite app_length. cbn. lia.
   Qed.
 
   Lemma remove_internal f N typ : n_ch N <> [] ->
@@ -1545,8 +1545,137 @@ Section Refine.
       + exists (I1 ++ I2), (Some y). rewrite remove_nth_mid, nth_error_mid. split; [reflexivity|].
         change (I1 ++ y :: I2) with (I1 ++ [y] ++ I2). change (I1 ++ I2) with (I1 ++ [] ++ I2).
         apply (l0_delete_comp ltb lt_irrefl lt_trans); auto. cbn. destruct EQ as [E1 E2]. rewrite E2, E1. reflexivity.
+    - destruct its as [|e I']; [contradiction|]. exists I', (Some e). split; reflexivity.
     - destruct (exists_last_or_nil its) as [->|(I' & e & ->)]; [contradiction|].
       exists I', (Some e). rewrite last_opt_snoc, removelast_snoc. split; reflexivity.
-    - destruct its as [|e I']; [contradiction|]. exists I', (Some e). split; reflexivity.
+  Qed.
+
+  Lemma idx_after_remove C1 c C2 c' (o : option A) : length (flatten c) = (length (flatten c') + match o with Some _ => 1 | None => 0 end)%nat ->
+    (match o with Some _ => ix_add_at (length C1) (-1) (idx_of (map fsize (C1 ++ c :: C2))) | None => idx_of (map fsize (C1 ++ c :: C2)) end)
+    = idx_of (map fsize (C1 ++ c' :: C2)).
+  Proof.
+    intros HL. rewrite !map_app. cbn [map]. destruct o.
+    - unfold idx_of. rewrite <- (map_length fsize C1), add_at_spec. f_equal. f_equal. f_equal. unfold fsize. lia.
+    - replace (fsize c') with (fsize c) by (unfold fsize; lia). reflexivity.
+  Qed.
+
+  Definition rem_post (typ : to_remove) (h : nat) (n n' : node) (out : option A) : Prop :=
+    binv h n' /\ rem_spec typ (flatten n) (flatten n') out /\
+    (length (n_its n) - 1 <= length (n_its n') <= length (n_its n))%nat.
+
+  Definition rem_ih (h : nat) : Prop :=
+    forall typ n fuel, binv h n -> sorted (flatten n) -> (2 * h + 2 <= fuel)%nat -> n_its n <> [] ->
+      exists n' out, remove ltb fuel n typ lo = Some (n', out) /\ rem_post typ h n n' out.
+
+  Lemma remove_big typ h f (J1 J2 : list A) C1 c C2 found :
+    rem_ih h ->
+    length C1 = length J1 -> length C2 = length J2 ->
+    Forall (binv h) (C1 ++ c :: C2) -> Forall (fun c0 => lo <= length (n_its c0) <= hi)%nat (C1 ++ c :: C2) ->
+    sorted (flatten (Node (J1 ++ J2) (C1 ++ c :: C2) (idx_of (map fsize (C1 ++ c :: C2))))) ->
+    sel_int (J1 ++ J2) typ = (length J1, found) ->
+    (lo < length (n_its c))%nat ->
+    (found = false -> pos_ok typ (zipl J1 C1) (zipr J2 C2)) ->
+    (found = true -> exists x y J2', typ = RemoveItem x /\ J2 = y :: J2' /\ eqv x y) ->
+    (2 * h + 2 <= f)%nat ->
+    exists n' out,
+      remove ltb (S f) (Node (J1 ++ J2) (C1 ++ c :: C2) (idx_of (map fsize (C1 ++ c :: C2)))) typ lo = Some (n', out) /\
+      binv (S h) n' /\
+      rem_spec typ (flatten (Node (J1 ++ J2) (C1 ++ c :: C2) (idx_of (map fsize (C1 ++ c :: C2))))) (flatten n') out /\
+      length (n_its n') = length (J1 ++ J2).
+  Proof.
+    intros IH L1 L2 F1 F2 Hs SEL Big HNF HF Hf.
+    assert (Bc : binv h c) by (apply Forall_app in F1 as [_ F1']; inversion F1'; assumption).
+    assert (Hb : (lo <= length (n_its c) <= hi)%nat) by (apply Forall_app in F2 as [_ F2']; inversion F2'; assumption).
+    assert (NEc : n_its c <> []) by (destruct (n_its c); [cbn in Big; lia|discriminate]).
+    rewrite remove_internal by (cbn; destruct C1; discriminate). cbn [n_its n_ch n_idx]. rewrite SEL.
+    replace (nth_error (C1 ++ c :: C2) (length J1)) with (Some c) by (rewrite <- L1; symmetry; apply nth_error_mid).
+    replace (Nat.leb (length (n_its c)) lo) with false by (symmetry; apply Nat.leb_gt; exact Big).
+    pose proof (flatten_at_child J1 J2 C1 c C2 (idx_of (map fsize (C1 ++ c :: C2))) L1 L2) as FL.
+    assert (Sc : sorted (flatten c)).
+    { rewrite FL in Hs. apply sorted_app in Hs as (_ & Hs & _). apply sorted_app in Hs as (Hs & _ & _). exact Hs. }
+    destruct found.
+    - (* the item is in this node: replaced by its predecessor, the largest item of the child to its left *)
+      destruct (HF eq_refl) as (x & y & J2' & -> & -> & EQ). clear HNF HF.
+      rewrite nth_error_mid.
+      destruct (IH RemoveMax c f Bc Sc Hf NEc) as (c' & out & E & B' & RS & Hlen). rewrite E.
+      cbn [rem_spec] in RS. destruct out as [pred|]; [|contradiction].
+      rewrite replace_nth_mid. rewrite <- L1, replace_nth_mid.
+      eexists. exists (Some y). split; [reflexivity|].
+      cbn [length] in L2. destruct C2 as [|cr C2']; [discriminate|]. cbn [length] in L2.
+      assert (LEN : length (flatten c) = (length (flatten c') + 1)%nat) by (rewrite RS, app_length; cbn; lia).
+      pose proof (idx_after_remove C1 c (cr :: C2') c' (Some pred) LEN) as EIDX. cbn beta iota in EIDX. rewrite EIDX.
+      split; [|split].
+      + apply binv_node.
+        * rewrite !app_length in *. cbn [length] in *. lia.
+        * apply Forall_app in F1 as [Fa Fb]. inversion Fb; subst. apply Forall_app. split; [exact Fa|constructor; assumption].
+        * apply Forall_app in F2 as [Fa Fb]. inversion Fb; subst. apply Forall_app. split; [exact Fa|constructor; [lia|assumption]].
+      + cbn [rem_spec].
+        rewrite (flatten_at_item J1 y J2' C1 c (cr :: C2') _ L1 ltac:(cbn; lia)) in *.
+        rewrite (flatten_at_item J1 pred J2' C1 c' (cr :: C2') _ L1 ltac:(cbn; lia)).
+        rewrite RS in *. rewrite <- !app_assoc in *. cbn [app] in *.
+        replace (zipl J1 C1 ++ flatten c' ++ pred :: y :: inter J2' (cr :: C2'))
+          with ((zipl J1 C1 ++ flatten c' ++ [pred]) ++ [y] ++ inter J2' (cr :: C2')) by (rewrite <- !app_assoc; reflexivity).
+        replace (zipl J1 C1 ++ flatten c' ++ pred :: inter J2' (cr :: C2'))
+          with ((zipl J1 C1 ++ flatten c' ++ [pred]) ++ [] ++ inter J2' (cr :: C2')) by (rewrite <- !app_assoc; reflexivity).
+        replace (zipl J1 C1 ++ flatten c' ++ pred :: y :: inter J2' (cr :: C2'))
+          with ((zipl J1 C1 ++ flatten c' ++ [pred]) ++ y :: inter J2' (cr :: C2')) in Hs by (rewrite <- !app_assoc; reflexivity).
+        destruct (sorted_mid ltb _ _ _ Hs) as (A1 & A2 & _ & _).
+        apply (l0_delete_comp ltb lt_irrefl lt_trans); [eapply all_lt_eqv; eauto|eapply lt_all_eqv; eauto|].
+        cbn. destruct EQ as [E1 E2]. rewrite E2, E1. reflexivity.
+      + cbn [n_its]. rewrite !app_length. reflexivity.
+    - (* descend *)
+      specialize (HNF eq_refl). clear HF.
+      destruct (IH typ c f Bc Sc Hf NEc) as (c' & out & E & B' & RS & Hlen). rewrite E.
+      rewrite <- L1, replace_nth_mid.
+      eexists. exists out. split; [reflexivity|].
+      pose proof (rem_length _ _ _ _ RS) as LEN.
+      pose proof (idx_after_remove C1 c C2 c' out LEN) as EIDX. rewrite EIDX.
+      split; [|split].
+      + apply (binv_replace_child h J1 J2 C1 c C2 c'); auto. lia.
+      + rewrite FL, (flatten_at_child J1 J2 C1 c' C2 _ L1 L2). apply rem_comp; assumption.
+      + reflexivity.
+  Qed.
+
+  Lemma in_zipl a J C : In a J -> length C = length J -> In a (zipl J C).
+  Proof.
+    revert C. induction J as [|j J IH]; intros [|c C] Ha L; try discriminate; [destruct Ha|].
+    cbn [zipl]. cbn in L. apply in_or_app. right. destruct Ha as [<-|Ha]; [left; reflexivity|right; apply IH; [exact Ha|lia]].
+  Qed.
+  Lemma in_zipr a J C : In a J -> length C = length J -> In a (zipr J C).
+  Proof.
+    revert C. induction J as [|j J IH]; intros [|c C] Ha L; try discriminate; [destruct Ha|].
+    cbn [zipr]. cbn in L. destruct Ha as [<-|Ha]; [left; reflexivity|right; apply in_or_app; right; apply IH; [exact Ha|lia]].
+  Qed.
+
+  (* the selection of `typ` in a node, as order facts about the in-order walk around child number |J1| *)
+  Definition fsel (typ : to_remove) (P Q : list A) (J2 : list A) (found : bool) : Prop :=
+    match typ with
+    | RemoveItem x =>
+        all_lt P x /\
+        if found then exists y J2', J2 = y :: J2' /\ eqv x y
+        else lt_all x Q
+    | RemoveMax => Q = [] /\ J2 = [] /\ found = false
+    | RemoveMin => P = [] /\ found = false
+    end.
+
+  Lemma zipl_nil J C : length C = length J -> zipl J C = [] -> J = [].
+  Proof.
+    destruct J as [|j J]; [reflexivity|]. destruct C as [|c C]; [discriminate|]. cbn [zipl]. intros _ H.
+    destruct (flatten c); discriminate.
+  Qed.
+
+  Lemma fsel_sel typ (J1 J2 : list A) (C1 : list node) found post :
+    length C1 = length J1 ->
+    sorted (J1 ++ J2) -> fsel typ (zipl J1 C1) post J2 found ->
+    (found = false -> forall a, In a J2 -> In a post) ->
+    sel_int (J1 ++ J2) typ = (length J1, found).
+  Proof.
+    intros L1 Hs F HQ. destruct typ as [x| |]; cbn [fsel sel_int] in *.
+    - destruct F as [HP F]. assert (H1 : all_lt J1 x) by (intros a Ha; apply HP, in_zipl; auto).
+      destruct found.
+      + destruct F as (y & J2' & -> & EQ). eapply items_find_yes; eauto.
+      + eapply items_find_no; eauto. intros a Ha. apply F, HQ; auto.
+    - destruct F as [HP ->]. rewrite (zipl_nil _ _ L1 HP). reflexivity.
+    - destruct F as (_ & -> & ->). rewrite app_nil_r. reflexivity.
   Qed.
 End Refine.
